@@ -67,7 +67,7 @@ Definition init (n : nat) : state :=
   {| st_ps := repeat ps0 n; st_pk := None; st_sap := None; st_dk := None; st_help_skip := false |}.
 
 (* ---- outcomes: the path a call took ---- *)
-Inductive errk := EPre | EStaleKey | EBroken | EPrintFail | EPost.
+Inductive errk := EPre | EStaleKey | EBroken | EPrintFail | EPost | EHelpArgs.
 Inductive out :=
 | OOk (shtab_key : bool)
 | OErr (e : errk)
@@ -353,8 +353,9 @@ Definition is_suffix_help (n : str) : option str :=
   let '(h, rest) := split_dot n in
   match rest with Some r => if str_eqb r s_help then Some h else None | None => None end.
 
-(* the tokens after --<cls>.help=<class> are parsed by a throw-away parser of that class
-   (exit_on_error default True): all of them must be --<cls>.<param>=<valid> *)
+(* the tokens after --<cls>.help=<class> are parsed by a throw-away parser of that class (exit_on_error as the
+   calling parser, i.e. False here): all of them must be --<cls>.<param>=<valid>, else ITS error surfaces
+   (EHelpArgs) instead of "Expected a nested --*.help option" (EPre) *)
 Definition help_rest_ok (cname : str) (ps : list (str * kind)) (rest : list tok) : bool :=
   forallb (fun t => match t with
                     | TOpt n v => let '(h, p) := split_dot n in
@@ -407,7 +408,7 @@ Fixpoint scan_root (fx : fixes) (D : decl) (i : nat) (hs : bool) (toks : list to
                   | _ =>
                       (* uses parser.args; the throw-away parser's parse_args sets the context variables *)
                       let cv' := {| cv_pk := Some (None, true); cv_sap := Some LInner; cv_dk := cv_dk cv |} in
-                      {| so_res := SStop (if help_rest_ok h ps r then OErr EPre else OExit2);
+                      {| so_res := SStop (if help_rest_ok h ps r then OErr EPre else OErr EHelpArgs);
                          so_c := c; so_unk := unk; so_pend := pend; so_chosen := None; so_cv := cv';
                          so_subargs := None; so_hs := hs' |}
                   end
